@@ -151,6 +151,8 @@ def gen_script(rng, kind, nops, with_clear=True):
             top.append(new(CLR))
             n_live = 0
             grow = True
+        elif rng.random() >= min(1.0, 320.0 / nops):
+            top.append(new(GET, rng.randrange(len(keys))))       # keep the number of loops (and the trace) bounded
         else:
             # a range loop whose body mutates the map
             segs = []
